@@ -1,0 +1,34 @@
+//go:build verif
+
+// Assumed contracts (A-sql-4) for the generated database layer of the Gnosis keyper; bodies are sqlc
+// code over pgx and are not verified (`trusted`). Comments only.
+package database
+
+//@ // ghost trace of tx-pointer writes: (eon, value, age, age valid)
+//@ evdecl setTxPointer(Int, Int, Int, Bool)
+//@ func (*Queries).SetTxPointer
+//@   trusted
+//@   requires q != nil
+//@   event setTxPointer(arg.Eon, arg.Value, arg.Age.Int64, arg.Age.Valid)
+//@
+//@ // A-db-2: stored gas limits are non-negative (they come from uint256 values filtered with IsInt64)
+//@ func (*Queries).GetTransactionSubmittedEvents
+//@   trusted
+//@   requires q != nil
+//@   ensures ret1 == nil ==> (len(ret0) <= arg.Limit && (forall i :: 0 <= i && i < len(ret0) ==> ret0[i].GasLimit >= 0))
+//@
+//@ ufn queueLen(Int) Int
+//@ func (*Queries).GetTransactionSubmittedEventCount
+//@   trusted
+//@   requires q != nil
+//@   ensures ret1 == nil ==> ret0 == queueLen(eon)
+//@ // the tx pointer row of an eon as functions of the abstract database state
+//@ ufn rowExists(Int) Bool
+//@ ufn rowValue(Int) Int
+//@ ufn rowAge(Int) Int
+//@ ufn rowAgeValid(Int) Bool
+//@ func (*Queries).GetTxPointer
+//@   trusted
+//@   requires q != nil
+//@   ensures (ret1 == sentinel("pgx.ErrNoRows")) <==> !rowExists(eon)
+//@   ensures ret1 == nil ==> (rowExists(eon) && ret0.Value == rowValue(eon) && ret0.Age.Int64 == rowAge(eon) && ret0.Age.Valid == rowAgeValid(eon))
